@@ -94,7 +94,8 @@ def judge_result(country: str, use_registry: bool, pins: dict, outcome):
     for comp, val in pins.items():
         if c.component(s[4:], comp) != val or getattr(v, comp) != val:
             return (f"pinned-{comp}-not-honoured", {comp: val}, {"iban": s, comp: getattr(v, comp)})
-    if (use_registry and "bank_code" not in pins and "branch_code" not in pins
+    key_is_bank_code_only = c.lookup_components == ["bank_code"]
+    if (use_registry and "bank_code" not in pins and ("branch_code" not in pins or key_is_bank_code_only)
             and "national_checksum_digits" not in pins and all_entries_have_bank_code(cc)):
         if v.bank is None or (cc, c.lookup_key(s[4:])) not in lookup.by_key():
             return ("registry-draw-not-a-listed-bank", "listed bank", s)
